@@ -121,10 +121,32 @@ theorem invS'_s2r {s s' : St} {t : Tid} (h : InvS' s) (hp : (s.loc t).pc = .s2r)
 theorem invS'_s3 {s : St} {t : Tid} (h : InvS' s) (hp : (s.loc t).pc = .s3) : InvS' (doS3 s t (s.loc t)) :=
   h.pcOnly .p0 hp (by decide) same_glob rfl
 
+/-- `poll` timed out (→ `r0`) or `recv` raised `EOFError` (→ `x0`): no frame in hand -/
+theorem invS'_p0_none {s : St} {t : Tid} (p' : PC) (hp' : p' = .x0 ∨ p' = .r0) (h : InvS' s)
+    (hp : (s.loc t).pc = .p0) : InvS' (setLoc s t { s.loc t with pc := p', data := none }) := by
+  have ht := h.thr t
+  refine h.locOnly' _ same_glob rfl ?_ (by simp only [Loc.hasSeq, hp]; simp; exact fun a _ => a)
+  rcases hp' with rfl | rfl <;>
+  exact {
+    bg_pc := by simp [PC.client]
+    seq_issued := by simpa [Loc.hasSeq, hp] using ht.seq_issued
+    at_c1 := by simp
+    at_c2 := by simp
+    cb_pc := by simpa [hp, PC.completing] using ht.cb_pc
+    completing := by simp [PC.completing]
+    data_answer := by simp
+    at_w10 := by simp
+    result_ok := ht.result_ok
+    self_dispatch := by simpa [Loc.hasSeq, hp, PC.waiting] using ht.self_dispatch
+    dl_ttl := by simpa [Loc.hasSeq, hp, PC.inServe] using ht.dl_ttl
+    wdl_le := by simp }
+
 theorem invS'_p0 {s s' : St} {t : Tid} (h : InvS' s) (hp : (s.loc t).pc = .p0)
     (hs : doP0 s t (s.loc t) = some s') : InvS' s' := by
   have ht := h.thr t
   unfold doP0 at hs
+  split at hs
+  · cases hs; exact invS'_p0_none _ (.inl rfl) h hp
   split at hs
   · rename_i f rest heq
     cases hs
@@ -150,23 +172,23 @@ theorem invS'_p0 {s s' : St} {t : Tid} (h : InvS' s) (hp : (s.loc t).pc = .p0)
         wdl_le := by simp }
     · simp [Loc.hasSeq, hp]
   · split at hs
-    · cases hs
-      refine h.locOnly' _ same_glob rfl ?_ ?_
-      · exact {
-          bg_pc := by simp [PC.client]
-          seq_issued := by simpa [Loc.hasSeq, hp] using ht.seq_issued
-          at_c1 := by simp
-          at_c2 := by simp
-          cb_pc := by simpa [hp, PC.completing] using ht.cb_pc
-          completing := by simp [PC.completing]
-          data_answer := by simp
-          at_w10 := by simp
-          result_ok := ht.result_ok
-          self_dispatch := by simpa [Loc.hasSeq, hp, PC.waiting] using ht.self_dispatch
-          dl_ttl := by simpa [Loc.hasSeq, hp, PC.inServe] using ht.dl_ttl
-          wdl_le := by simp }
-      · simp [Loc.hasSeq, hp]
-    · cases hs
+    · cases hs; exact invS'_p0_none _ (.inl rfl) h hp
+    · split at hs
+      · cases hs; exact invS'_p0_none _ (.inr rfl) h hp
+      · cases hs
+
+/-- `self.close(); raise` -/
+theorem invS'_x0 {s : St} {t : Tid} (h : InvS' s) (hp : (s.loc t).pc = .x0) : InvS' (doX0 s t (s.loc t)) := by
+  have ht := h.thr t
+  have ht' : ThrOK s t { s.loc t with pc := .r0, raising := true } := (ht.setRaising true).setPc .r0 hp (by decide)
+  unfold doX0
+  split
+  · exact h.locOnly' _ same_glob rfl ht' (by simp [Loc.hasSeq, hp])
+  · refine h.step' t _ rfl (by simp [Loc.hasSeq, hp]) ?_ ?_ ?_
+    · exact h.glob.clearReg rfl rfl rfl rfl rfl rfl (Nat.le_succ _) (fun _ => .inr rfl)
+    · exact ht'.clearReg h.glob rfl rfl rfl rfl rfl rfl (fun _ => .inr rfl)
+    · intro u _
+      exact (h.thr u).clearReg h.glob rfl rfl rfl rfl rfl rfl (fun _ => .inr rfl)
 
 theorem invS'_r0 {s : St} {t : Tid} (h : InvS' s) (hp : (s.loc t).pc = .r0) : InvS' (doR0 s t (s.loc t)) :=
   h.pcOnly .n0 hp (by decide) same_glob rfl
@@ -185,10 +207,16 @@ theorem invS'_n2 {s : St} {t : Tid} (h : InvS' s) (hp : (s.loc t).pc = .n2) : In
   h.pcOnly .d0 hp (by decide) same_glob rfl
 
 theorem invS'_d0 {s : St} {t : Tid} (h : InvS' s) (hp : (s.loc t).pc = .d0) : InvS' (doD0 s t (s.loc t)) := by
+  have ht := h.thr t
   unfold doD0
   split
-  · exact invS'_leave h (by rw [hp]; decide)
   · exact h.pcOnly .d1 hp (by decide) same_glob rfl
+  · split
+    · split
+      · exact h.locOnly' _ same_glob rfl (thrOK_idle ht rfl rfl rfl rfl rfl ht.result_ok) (by simp [Loc.hasSeq])
+      · exact h.locOnly' _ same_glob rfl (thrOK_idle ht rfl (by simp_all) rfl rfl rfl (by simp))
+          (by simp [Loc.hasSeq])
+    · exact invS'_leave h (by rw [hp]; decide)
 
 theorem invS'_d2 {s s' : St} {t : Tid} (h : InvS' s) (hp : (s.loc t).pc = .d2)
     (hs : doD2 s t (s.loc t) = some s') : InvS' s' := by
@@ -466,7 +494,29 @@ theorem invS'_c2_aux {s : St} {t : Tid} (p' : PC) (hp' : p' = .c3 ∨ p' = .w0) 
 
 theorem invS'_c2 {s : St} {t : Tid} (h : InvS' s) (hp : (s.loc t).pc = .c2) : InvS' (doC2 s t (s.loc t)) := by
   unfold doC2
-  exact invS'_c2_aux _ (by split <;> simp) h hp
+  split
+  · have ht := h.thr t
+    have hb : (s.loc t).bg = false := ht.bg_false_of_client (by rw [hp]; rfl)
+    have hcells : ∀ r, (setLoc (setCell s (s.loc t).seq { s.cells (s.loc t).seq with reg := false }) t
+          { s.loc t with pc := .idle, result := some .eof }).cells r = s.cells r ∨
+        (setLoc (setCell s (s.loc t).seq { s.cells (s.loc t).seq with reg := false }) t
+          { s.loc t with pc := .idle, result := some .eof }).cells r = { s.cells r with reg := false } := by
+      intro r
+      rw [setLoc_cells]
+      by_cases e : r = (s.loc t).seq
+      · subst e; exact .inr (setCell_cells_self _ _ _)
+      · exact .inl (setCell_cells_ne _ _ e)
+    refine h.step' t _ rfl (by simp [Loc.hasSeq]) ?_ ?_ ?_
+    · exact h.glob.clearReg rfl rfl rfl rfl rfl rfl (Nat.le_refl _) hcells
+    · exact thrOK_idle (ht.clearReg h.glob rfl rfl rfl rfl rfl rfl hcells) rfl hb
+        (by
+          cases hc : (s.loc t).cb with
+          | none => rfl
+          | some q => have := ht.cb_pc q hc; rw [hp] at this; cases this)
+        rfl rfl (by simp)
+    · intro u _
+      exact (h.thr u).clearReg h.glob rfl rfl rfl rfl rfl rfl hcells
+  · exact invS'_c2_aux _ (by split <;> simp) h hp
 
 theorem invS'_c3 {s : St} {t : Tid} (h : InvS' s) (hp : (s.loc t).pc = .c3) : InvS' (doC3 s t (s.loc t)) := by
   have ht := h.thr t
@@ -847,6 +897,7 @@ theorem invS'_run {s s' : St} (t : Tid) (h : InvS' s) (hs : stepRun s t = some s
   case s2r => exact invS'_s2r h hpc hs
   case s3 => exact hs ▸ invS'_s3 h hpc
   case p0 => exact invS'_p0 h hpc hs
+  case x0 => exact hs ▸ invS'_x0 h hpc
   case r0 => exact hs ▸ invS'_r0 h hpc
   case n0 => exact invS'_n0 h hpc hs
   case n1 => exact hs ▸ invS'_n1 h hpc
@@ -883,7 +934,13 @@ theorem invS'_step {s s' : St} (a : Actor) (h : InvS' s) (hs : step s a = some s
   | peer q exc v =>
     simp only [step] at hs
     split at hs
-    · rename_i hc; cases hs; exact invS'_peer exc v h hc
+    · rename_i hc; cases hs; exact invS'_peer exc v h hc.1
+    · cases hs
+  | peerEof =>
+    simp only [step] at hs
+    split at hs
+    · cases hs
+      exact h.locOnly 0 same_glob (fun _ _ => rfl) (h.thr 0) (fun x => ⟨x, rfl⟩)
     · cases hs
   | tick d =>
     simp only [step, Option.some.injEq] at hs
